@@ -115,6 +115,7 @@ func runC09(c *hx.Ctx) *hx.Outcome {
 	s := c.NewSim()
 	s.ChooseStrategy()
 	s.SetStarveKey([]string{"consumer", "file_handler", "app_core", "handler.go"}[t.D(4)])
+	fineGrained(c, s, o)
 	s.Budget = 96*(len(wire)+16)*(1+nonNil/2) + 8192
 	src := &env.Source{T: t, Data: wire, MaxChunk: maxChunk, ZeroReads: t.SBool(1, 4), DataWithErr: t.SBool(1, 3), Ints: readerFault}
 	var moreSrc []*env.Source
@@ -368,6 +369,7 @@ func runC13(c *hx.Ctx) *hx.Outcome {
 	s := c.NewSim()
 	s.ChooseStrategy()
 	s.SetStarveKey([]string{"consumer", "handler.go", "file-handler"}[t.D(3)])
+	fineGrained(c, s, o)
 	// a handler may legitimately re-poll every WaitTimeOnEOF until the tolerance
 	// has passed: allow for that many retries
 	polls := 0
